@@ -18,7 +18,7 @@ def forms(x, rng):
     """the same node as str (':' spelling, and '_' spelling when legal), TermId, Identified"""
     v = G.value_of(x)
     p, i = G.key_of(x)
-    out = [['str', v], ['tid', x], ['ident', x]]
+    out = [['str', v], ['tid', x], ['ident', x], ['utid', x], ['uident', x]]
     if '_' not in p and ':' not in i and '_' not in i and p and rng.random() < 0.5:
         out.append(['str', p + '_' + i])
     return out
